@@ -18,10 +18,10 @@ HEADLINE = ["graphs", "graphs_with_cycle", "expected_reject", "expected_accept",
 
 PATHS = [(), (0,), (1,), (0, 0), (0, 1)]
 MENU_CROSS = [(), ("plain",), ("shift",), ("weak",), ("async",), ("plain", "shift"), ("plain", "weak"), ("shift", "weak"),
-              ("shift", "async"), ("async", "shift"), ("weak", "async"), ("shift+async",),
+              ("shift", "async"), ("async", "shift"), ("weak", "async"), ("shift+async",), ("weak+shift",), ("weak+shift", "plain"), ("plain", "weak+shift"),
               # the same parallel connections registered in the other order (min() over delays, overwrites)
               ("shift", "plain"), ("weak", "plain"), ("weak", "shift"), ("async", "weak")]
-MENU_SELF = [(), ("shift",), ("weak",), ("plain",)]
+MENU_SELF = [(), ("shift",), ("weak",), ("plain",), ("weak+shift",)]
 
 
 def plan(tier, seed, scale):
@@ -57,6 +57,10 @@ def mk_scn(paths: List[Tuple[int, ...]], edges: Dict[Tuple[int, int], Tuple[str,
                     c["shift"] = 1
                 elif kind == "weak":
                     c["weak"] = True
+                elif kind == "weak+shift":
+                    # both flags in one connect(): the time shift resolves any cycle, the weak flag needs a common group
+                    c["weak"] = True
+                    c["shift"] = 1
             port[("o", u)] += 1
             port[("i", v)] += 1
             conns.append(c)
@@ -86,7 +90,7 @@ def check_graph(scn: dict, C: Counter, viol, again=None) -> None:
     o = tr["outcome"]
     stepped = any(e.get("op") == "call" and e.get("kind") == "step" for e in tr["events"])
     desc = {"paths": {s["sid"]: s["path"] for s in scn["sims"]},
-            "conns": [(c["src"], c["dst"], ("shift+" if c.get("shift") and c.get("async") else "") + ("async" if c.get("async") else ("weak" if c.get("weak") else ("shift" if c.get("shift") else "plain"))))
+            "conns": [(c["src"], c["dst"], ("shift+" if c.get("shift") and c.get("async") else "") + ("async" if c.get("async") else ("weak+shift" if c.get("weak") and c.get("shift") else ("weak" if c.get("weak") else ("shift" if c.get("shift") else "plain")))))
                       for c in scn["conns"]]}
     if o["kind"] == "connect_error":
         C["connect_error_skipped"] += 1
@@ -177,7 +181,7 @@ def run_slice(job: dict) -> dict:
         for paths in itertools.product(PATHS, repeat=n):
             menus = [MENU_SELF if u == v else MENU_CROSS for (u, v) in pairs]
             for choice in itertools.product(*menus):
-                if any("weak" in ks and not weak_ok(paths, u, v) for (u, v), ks in zip(pairs, choice)):
+                if any(any("weak" in k_ for k_ in ks) and not weak_ok(paths, u, v) for (u, v), ks in zip(pairs, choice)):
                     continue
                 k += 1
                 if k % W != w:
@@ -194,7 +198,7 @@ def run_slice(job: dict) -> dict:
         k = 0
         for paths in itertools.product(PATHS, repeat=n):
             for choice in itertools.product(menu3, repeat=len(pairs3)):
-                if any("weak" in ks and not weak_ok(paths, u, v) for (u, v), ks in zip(pairs3, choice)):
+                if any(any("weak" in k_ for k_ in ks) and not weak_ok(paths, u, v) for (u, v), ks in zip(pairs3, choice)):
                     continue
                 k += 1
                 if k % W != w:
@@ -207,8 +211,8 @@ def run_slice(job: dict) -> dict:
         for (u, v) in [(u, v) for u in range(n) for v in range(n)]:
             menu = MENU_SELF if u == v else MENU_CROSS
             ks = rng.choice(menu) if rng.random() < (0.25 if u == v else 0.6) else ()
-            if "weak" in ks and not weak_ok(paths, u, v):
-                ks = tuple(x for x in ks if x != "weak")
+            if any("weak" in k_ for k_ in ks) and not weak_ok(paths, u, v):
+                ks = tuple(x for x in ks if "weak" not in x)
             if ks:
                 edges[(u, v)] = ks
         do(mk_scn(paths, edges))
@@ -223,8 +227,8 @@ def run_slice(job: dict) -> dict:
             u, v = rng.randrange(n), rng.randrange(n)
             menu = MENU_SELF if u == v else MENU_CROSS
             ks = rng.choice(menu[1:])
-            if "weak" in ks and not weak_ok(paths, u, v):
-                ks = tuple(x for x in ks if x != "weak")
+            if any("weak" in k_ for k_ in ks) and not weak_ok(paths, u, v):
+                ks = tuple(x for x in ks if "weak" not in x)
             if ks:
                 edges[(u, v)] = ks
         do(mk_scn(paths, edges))
